@@ -160,7 +160,7 @@ Proof.
 Qed.
 
 (* user submissions must also satisfy the user and soft rules *)
-Lemma inject_user_admits_l s t uo v u g : sorted_pool (pool s) ->
+Lemma inject_user_admits_l s ep t uo v u g : sorted_pool (pool s) ->
   In (u, g) (pool (fst (step s (InjectUser ep t uo v)))) -> ~ In (tid u) (keys (pool s)) ->
   u = t /\ uo = true /\ hard_ok (unspent s) t v = true /\ v_soft v = true /\ g = true.
 Proof.
@@ -200,7 +200,7 @@ Proof.
   - split; [reflexivity|discriminate].
 Qed.
 
-Lemma inject_user_known_l s t u v : sorted_pool (pool s) -> In (tid t) (keys (pool s)) ->
+Lemma inject_user_known_l s ep t u v : sorted_pool (pool s) -> In (tid t) (keys (pool s)) ->
   keys (pool (fst (step s (InjectUser ep t u v)))) = keys (pool s).
 Proof.
   intros Hs Hk. cbn [step]. unfold inject_user.
@@ -281,7 +281,7 @@ Qed.
 
 (* which operation admits transaction t, and under which verdict *)
 Definition admits (o : op) (t : txn) (v : verdict) : Prop :=
-  o = InjectForeign t v \/ (o = InjectUser ep t true v /\ v_soft v = true).
+  o = InjectForeign t v \/ (exists ep, o = InjectUser ep t true v /\ v_soft v = true).
 
 Lemma step_new_entry s o t : sorted_pool (pool s) ->
   In t (map fst (pool (fst (step s o)))) ->
@@ -299,7 +299,7 @@ Proof.
     destruct (v_soft v) eqn:Es; cbn [negb] in Hin; [|eauto].
     unfold inject in Hin. rewrite Eh in Hin. cbn [negb fst pool] in Hin.
     destruct (pool_put_entries _ _ _ _ _ Hs Hin) as [[H1 [H2 [H3|H3]]]|[H1 H2]]; [|now left|eauto].
-    subst t0. right. exists v. split; [right; auto|exact Eh].
+    subst t0. right. exists v. split; [right; exists ep; auto|exact Eh].
   - unfold exec_block in Hin. destruct (block_ok (unspent s) h txs); cbn [fst pool] in Hin; [|eauto].
     unfold pool_remove in Hin. apply filter_In in Hin. destruct Hin as [Hin _]. eauto.
   - unfold refresh in Hin. destruct (negb (covered vs (pool s))); cbn [fst pool] in Hin; [eauto|].
@@ -391,7 +391,7 @@ Qed.
 (* the node's "inputs unspent" answers agree with the model's unspent set *)
 Definition agrees (s : state) (o : op) : Prop :=
   match o with
-  | InjectForeign t v | InjectUser ep t _ v => v_unspent v = inputs_unspent (unspent s) t
+  | InjectForeign t v | InjectUser _ t _ v => v_unspent v = inputs_unspent (unspent s) t
   | ExecBlock _ _ => True
   | Refresh vs | RemoveInvalid vs =>
       covered vs (pool s) = true /\
